@@ -9,7 +9,7 @@ P = {
  'C01': ('pymon', 'runtime monitor on clustering entry points + independent NumPy metric oracle + PAM branch-occupancy line probe',
          'Every k-centers/k-medoids/k-hybrid entry point (function, estimator, cold, warm, init_centers, explicit proposals) is executed on thousands of seeded data sets and each returned result is re-derived with an independent float64 metric; inputs are fingerprinted before/after. Held on the executions observed.',
          'Reference metric in NumPy float64; tolerance 1e-9 relative; distinct points only.', '3/C01'),
- 'C02': ('pymon', 'independent replay of the greedy rule over a recorded radius history + exhaustive optimal k-center radius for n<=13',
+ 'C02': ('pymon', 'independent replay of the greedy rule over a recorded radius history + exhaustive optimal k-center radius for n<=13; constructed ulp-level data around the pruning bound, serial and one-rank MPI route',
          'The farthest-point rule, radius monotonicity, the two-sided stop rule, the 2-approximation (against exhaustive search) and the triangle-inequality shortcut equivalence are decided per execution from the per-iteration history recorded by a wrapper on the iteration function.',
          'Metrics with the triangle inequality only; near-ties within 1e-9 counted ambiguous.', '3/C02'),
  'C03': ('pymon', 'runtime monitor on assigns_to_counts with a pure-Python pair-counting oracle over ragged/padded/shuffled/split presentations',
@@ -21,7 +21,7 @@ P = {
  'C05': ('pymon', 'list-of-rows reference model vs monitored RaggedArray.__getitem__ over a grammar of index expressions',
          'Tens of thousands of (array, index expression) reads per run, each compared with plain per-row numpy indexing, including out-of-row accesses that must raise. Held on what was observed.',
          'Container type of a result (scalar vs 1-element array, ndarray vs RaggedArray) is not compared, only values and row lengths.', '3/C05'),
- 'C06': ('pymon', 'history checker: random operation histories replayed on a list-of-rows model with full observation of all views after every step',
+ 'C06': ('pymon', 'history checker: random operation histories (element/row/slice/mask writes, cross-dtype rows, row exchanges, appends, arithmetic) replayed on a list-of-rows model with observation of all views and internal slots',
          'Seeded histories of writes/appends/arithmetic are applied to the real object and to the model; after every operation all read paths and the three internal slots are compared (coherence at quiescent points).',
          'Single-threaded histories (the object has no internal synchronisation to test).', '3/C06'),
  'C07': ('pymon', 'runtime monitor on committors/mfpts with first-step-equation residual oracle (dense NumPy) over dense and sparse containers',
@@ -35,14 +35,14 @@ P = {
          'Independent PAM reference applies to tie-free data with explicit proposals.', '3/C09'),
  'C10': ('pymon', 'brute-force distance-matrix oracle on assign_to_nearest_center/predict/find_cluster_centers and unique-id partition bookkeeping checks',
          'Assignments and distances are compared with a brute-force matrix; partition results are checked value by value using unique ids, with centers placed on trajectory boundaries.',
-         'batch_reassign is driven in the thorough tier only (needs trajectory files).', '3/C10'),
+         'Estimators are also driven through histories (fit, predict, refit on other data, predict).', '3/C10'),
  'C11': ('pymon', 'independent SCC oracle (boolean transitive closure) vs monitored trim_disconnected / MSM.fit on planted component structures',
          'Kept set, trimmed matrix, mapping and container are compared with an independent computation for planted multi-component count matrices in 8 containers.',
          'Exact weight ties accept any maximiser.', '3/C11'),
  'C12': ('pymon+sanitize', 'runtime monitor on both MLE implementations: termination, likelihood dominance over reversible competitors, Prinz fixed-point residual, py==compiled; compiled kernel also under ASan/UBSan',
          'Both estimators run on seeded strongly connected matrices; any internal AssertionError/TypeError is a violation; optimality is tested against the transpose estimate and random reversible competitors on the same support.',
          'Competitor family is sampled, not exhaustive; tolerance 10x the convergence tolerance.', '3/C12'),
- 'C13': ('sanitize', 'exact-value monitor + GCC ASan/UBSan build + TSan build with libgomp happens-before interposer, across dtypes/layouts/thread counts',
+ 'C13': ('sanitize', 'exact-value monitor + GCC ASan/UBSan build + TSan build with libgomp happens-before interposer, across dtypes/layouts/thread counts; floating-point-environment probe (FTZ/DAZ) around import and run',
          'The real kernels are run on seeded inputs in three builds; values are compared with exact references, out buffers are guard-banded, sanitizer report blocks are counted (zero required), OpenMP regions actually observed are counted.',
          'Static OpenMP schedule only; TSan sees the interleavings that occurred; red-zone tools miss intra-object overflow (guard bands and value checks cover the out buffer).', '3/C13'),
  'C14': ('mpisim', 'thread-per-rank stand-in MPI communicator as monitor (collective matching, arrival-order logging, injected delays) + serial-equivalence oracle',
@@ -60,7 +60,7 @@ P = {
  'C18': ('sanitize', 'np.add.at reference counts + conservation monitor, ASan/UBSan and TSan+interposer builds of libinfo, MI algebraic identity oracles',
          'Joint counts from the compiled kernel are compared cell by cell for all integer dtypes/layouts/thread counts, hostile ids must raise without corrupting earlier tables, and the MI identities are evaluated on the results.',
          'As C13 for the sanitizer part.', '3/C18'),
- 'C19': ('poison', 'NEP-49 poisoning allocator differential (0x00/0xFF/0x7F/noise), call-history perturbation, thread-count variation, masked-ufunc census, input fingerprints',
+ 'C19': ('poison', 'NEP-49 poisoning allocator differential (0x00/0xFF/0x7F/noise), call-history perturbation, thread-count and worker-process-count variation, same-argument-objects-refilled differential (functools caches cleared for the reference), masked-ufunc census, input fingerprints',
          'Each routine of the registry is called under four heap fill patterns, after random call prefixes and with different thread counts; results must be bit-identical and arguments unchanged.',
          'Allocator hook covers NumPy data buffers only (not SciPy/C mallocs).', '3/C19'),
  'C20': ('pymon', 'independent modular-interval hysteresis machine vs monitored rotamer assignment over seeded angle histories; set-based oracle for transitions()',
